@@ -2,6 +2,7 @@ mod mathgen;
 mod colors;
 mod macro_cases;
 mod macrotick;
+mod partgen;
 mod meshgen;
 mod polygen;
 mod filegen;
@@ -43,6 +44,17 @@ fn main() {
             let hi: i64 = a.get(5).and_then(|s| s.parse().ok()).unwrap_or(409);
             meshgen::emit(seed, n, lo, hi, a.get(6).and_then(|s| s.parse().ok()).unwrap_or(16))
         }
+        "part" => {
+            let lo: i64 = a.get(4).and_then(|s| s.parse().ok()).unwrap_or(500);
+            let hi: i64 = a.get(5).and_then(|s| s.parse().ok()).unwrap_or(513);
+            partgen::emit(seed, n, lo, hi)
+        }
+        "partone" => {
+            let op: i64 = a[2].parse().unwrap();
+            let args: Vec<f64> = a[3..].iter().map(|s| s.parse().unwrap()).collect();
+            partgen::emit_one(op, &args)
+        }
+        "lookup" => partgen::emit_lookup(),
         "mathone" => {
             let op: i64 = a[2].parse().unwrap();
             let args: Vec<f64> = a[3..].iter().map(|s| s.parse().unwrap()).collect();
